@@ -148,3 +148,11 @@ func VerifPreparedInfo(s *Session, hostID, keyspace, stmt string) (id []byte, re
 	request.Table = ps.request.table
 	return ps.id, request, verifMeta(&ps.response), true
 }
+
+// VerifIterUnread returns how many bytes of the frame body the iterator has not consumed yet.
+func VerifIterUnread(it *Iter) int {
+	if it == nil || it.framer == nil {
+		return 0
+	}
+	return len(it.framer.buf)
+}
